@@ -1486,6 +1486,7 @@ def c18(ctx):
                               "are %r relative to the input; the specification (PutCli!Allowed) does not allow this. Output: %s" % (
             e["class"], e["source"], e["verbatim"], e["trim"], e["emptyok"], e["exit"], e["requests"], e["puts"], e["outcome"], e.get("output", "")[:200]))
     cli_cov = cli_sessions(ctx, cli)
+    cli_cov.update(static_secrets(ctx))
     cov = {"evaluations": rr["counters"]["values"] * 8 + rc["counters"]["runs"], "distinct_nontrivial": rr["counters"]["values"] + rc["counters"]["runs"],
            "rule": "journeys: one generated byte string (the named classes: empty, NUL, newlines, ASCII, invalid UTF-8, JSON / base64 look-alikes, all 256 byte "
                    "values, then random short strings of every length residue mod 3, medium and large random strings up to 1 MiB (thorough 4 MiB), Unicode text "
@@ -1517,6 +1518,21 @@ class NoteCtx:
         self.count += 1
         if self.count <= 5:
             self._ctx.note("SPEC-NOTE (%s; no listed property covers this, not a verdict): %s -- %s" % (self._label, key, what[:700]))
+
+
+def static_secrets(ctx):
+    """The library's placeholder secrets (StaticSecret / StaticFile / StaticTextFile / StaticUpdater) against Static.tla; beyond the
+    listed properties: a difference is a note."""
+    results, wd, _ = ctx.godrive("e2e", "^TestStatic$", env={"VERIF_TRACES": 60 if ctx.thorough else 15}, name="static", timeout=600)
+    r = results.get("e2e-static")
+    if r is None:
+        ctx.note("SPEC-NOTE: the static-secret driver did not report (not a verdict)")
+        return {"static_calls": 0}
+    nctx = NoteCtx(ctx, "static secrets vs Static.tla")
+    st = validate_histories(nctx, "StaticTrace", "StaticTrace.cfg", os.path.join(wd, "trace.ndjson"), 2,
+                            extra_files={"dict.ndjson": open(os.path.join(wd, "dict.ndjson"), "rb").read()}, what="static-secret run",
+                            describe=lambda e: json.dumps(e, sort_keys=True)[:200])
+    return {"static_runs": st["histories"], "static_runs_accepted": st["accepted"], "static_calls_validated": st["events"], "static_differences_noted": nctx.count}
 
 
 def cli_sessions(ctx, cli):
